@@ -155,7 +155,7 @@ type parser struct {
 }
 
 var declKw = map[string]bool{"dialect": true, "use": true, "pure": true, "pred": true, "fold": true, "invariant": true,
-	"ghost": true, "lemma": true, "module": true, "props": true, "opaque": true, "reveal": true, "logged": true, "witness": true, "safe": true, "func": true, "ufun": true, "axiom": true, "nofault": true, "requires": true, "ensures": true, "loop": true, "frame": true, "trusted": true}
+	"ghost": true, "lemma": true, "module": true, "props": true, "opaque": true, "reveal": true, "logged": true, "witness": true, "safe": true, "func": true, "ufun": true, "axiom": true, "nofault": true, "requires": true, "ensures": true, "cover": true, "loop": true, "frame": true, "trusted": true}
 
 func (p *parser) peek() token { return p.toks[p.pos] }
 func (p *parser) next() token { t := p.toks[p.pos]; p.pos++; return t }
@@ -364,7 +364,7 @@ func Parse(src string) (f *File, err error) {
 				}
 			}
 			f.Funcs[cur.Name] = cur
-		case "requires", "ensures":
+		case "requires", "ensures", "cover":
 			if cur == nil {
 				panic(fmt.Sprintf("line %d: clause outside func", t.line))
 			}
